@@ -31,6 +31,24 @@ class Callback:
         return self.apply(it, args[0])
 
 
+class ItemCallback(Callback):
+    """A user function of ONE item that only reads that item's own entries: pure function of the item's contents D[item]
+    (stronger than Callback, which may read the whole heap; stated as a precondition by the contracts that use it)."""
+    def __init__(self, ctx, name, ret=V):
+        self.name = name
+        self.ret = ret
+        self.fn = z3.Function(f"icb_{name}", VARR, ret)
+        if ret == V:
+            c = z3.Const("c!icb", VARR)
+            ctx.assumptions.append(z3.ForAll([c], self.fn(c) != ABSENT, patterns=[self.fn(c)]))
+
+    def of(self, contents):
+        return self.fn(contents)
+
+    def apply(self, it, x):
+        return self.fn(M.heap_D(it.ctx)[M.to_v(it, x)])
+
+
 class ItemGetter:
     """operator.itemgetter(*keys): scalar for one key, tuple otherwise; KeyError when absent."""
     def __init__(self, it, keys):
